@@ -124,8 +124,50 @@ SIMPLE_OPS = ['op_nop', 'op_verify', 'op_return', 'op_2drop', 'op_2dup', 'op_3du
               'op_add', 'op_sub', 'op_booland', 'op_boolor', 'op_numequal', 'op_numequalverify', 'op_numnotequal',
               'op_min', 'op_max', 'op_within', 'op_ripemd160', 'op_sha1', 'op_sha256', 'op_hash160', 'op_hash256']
 from spec import pins_c19 as _pins
+def _top_short(self):
+    """OP_VERIFY / OP_IFDUP test the truth value of an item of ANY length; the proof covers items of up to 9 bytes (the lemma that ties
+    CastToBool to the numeric value is proved up to that length), longer items are evaluated natively (bounded stand-in below)."""
+    return len(self) == 0 or len(self[-1]) <= 9
+
+
 for _n in SIMPLE_OPS:
-    _op_contract(_n, getattr(sp, _n), pin_fn=getattr(_pins, _n, None))
+    _op_contract(_n, getattr(sp, _n), pin_fn=getattr(_pins, _n, None), requires=_top_short if _n in ('op_verify', 'op_ifdup') else None)
+
+
+def _long_truth_case(name, spec_fn):
+    def build(self):
+        st = Stack(self)
+        return (lambda: (getattr(st, name)(), list(st))), [], {}
+
+    def ensures(self, result):
+        exp = spec_fn(list(self))
+        res, after = result
+        if exp is None:
+            return res is False
+        return res is not False and after == exp
+
+    def sample(rng):
+        n = rng.choice([10, 11, 16, 20, 32, 33, 64, 75, 76, 255, 256, 520])
+        kind = rng.random()
+        if kind < 0.3:
+            top = bytes(n)
+        elif kind < 0.5:
+            top = bytes(n - 1) + b'\x80'
+        elif kind < 0.7:
+            j = rng.randrange(n)
+            top = bytes(j) + bytes([rng.choice([1, 0x80, 0xff])]) + bytes(n - j - 1)
+        else:
+            top = bytes(rng.getrandbits(8) for _ in range(n))
+        return {'self': [bytes(rng.getrandbits(8) for _ in range(rng.randrange(4))) for _ in range(rng.randrange(3))] + [top]}
+
+    d = {'params': {'self': _StackT}, 'build': build, 'ensures': ensures, 'sample': sample, 'native_only': True,
+         'bounded': 'top items of 10..520 bytes: all-zero, negative zero, one non-zero byte at a random position, random',
+         '__doc__': 'Stack.%s on items longer than 9 bytes (native evaluation only)' % name}
+    return contract('bitcoinlib.scripts.Stack.' + name, case='long-items-native', props=('C19',))(type(name + '_long', (), d))
+
+
+_long_truth_case('op_verify', sp.op_verify)
+_long_truth_case('op_ifdup', sp.op_ifdup)
 _op_contract('op_depth', sp.op_depth, requires=_depth_ok)
 _op_contract('op_size', sp.op_size, requires=_size_ok)
 
